@@ -489,6 +489,18 @@ def _gen_input(rng, cfg, kind):
             items.append(_haar_step(rng, n, 2))
         else:
             items.append(_cat_step(rng, n, cfg, arity_w=(0, 0, 1, 0)))
+    elif kind == "named-int-power":
+        # one named two-qubit gate at an integer exponent other than 1, alone on its pair (a component of its own, so
+        # the gateset's shortcuts for named gates - not the generic KAK path - decide the output), plus idle spectators
+        n = int(rng.integers(2, 4))
+        fam = ["ISwapPow", "SwapPow", "CZPow", "CXPow", "XXPow", "YYPow", "ZZPow"][int(rng.integers(7))]
+        e = float(rng.choice([-1, 3, -3, 2, 5, -2, 4, 1, -5, 7]))
+        w = _wires(rng, n, 2)
+        items.append(_U(fam, (e, 0.0), w))
+        label = "named-int-power:%s**%g" % (fam, e)
+        if n == 3 and rng.random() < 0.5:
+            other = [x for x in range(n) if x not in w][0]
+            items.append(_U("HPow", (1.0, 0.0), (other,)))
     elif kind == "kak":
         for _ in range(int(rng.integers(1, 4))):
             st, lab = _kak_step(rng, n)
@@ -559,7 +571,7 @@ class _time_limit:
         return False
 
 
-_KINDS = ["haar", "single-2q", "kak", "catalogue", "two-qubit-circuit", "native", "native", "mixed", "mixed"]
+_KINDS = ["haar", "single-2q", "kak", "catalogue", "two-qubit-circuit", "native", "native", "mixed", "mixed", "named-int-power"]
 
 def _is_native(op, cfg, opinion):
     """opinion 'G': the gateset's own answer; 'T': the harness table (CircuitOperations unrolled where documented)."""
